@@ -694,6 +694,9 @@ func TestC20(t *testing.T) {
 	c := c20
 	c.Checks = n(8, 120)
 	c.Run(t)
+	g := c20Grow
+	g.Checks = n(6, 80)
+	g.Run(t)
 	if cfg.Shard == 0 {
 		extra := 6000
 		if err := guard(func() error { return c20Big(extra) }); err != nil {
